@@ -228,7 +228,11 @@ def masterRun (S : Static) (orc : Oracle) (fuel : Nat) (s : Speed) :
       let (sim', top) := raiseInterrupt S fuel st.comp m.sim
       let stamp := interruptStamp m.tickerTime now m.lastReal s
       let sc := sim'.sched ""
-      let sim'' := { sim' with scheds := upsert sim'.scheds "" { sc with wake := addWakeup sc.wake top stamp } }
+      -- a callback that is already due but not served yet is not displaced by the interrupt
+      let when := match alookup sc.wake top with
+        | some w => if w < stamp then w else stamp
+        | none => stamp
+      let sim'' := { sim' with scheds := upsert sim'.scheds "" { sc with wake := addWakeup sc.wake top when } }
       masterRun S orc fuel s steps (nTicks + 1) { m with sim := sim'', now := now } rest acc
     | none =>
       match whenT, due with
